@@ -1,7 +1,7 @@
 (* SchedUnservedFacts.v — proof of stmt_reachable_unserved (SchedInv.v): for every reachable schedule the cached
    pair s_unserved is the pair of sums of the per-node shortfalls of the stored formations, and the keys of
    s_forms are duplicate-free.  Strengthened invariant: the keys of s_forms are exactly coverable_nodes nw. *)
-From RS Require Import Base BaseFacts Network Tour Transition Schedule SchedInv.
+From RS Require Import SchedPeel Base BaseFacts Network Tour Transition Schedule SchedInv.
 
 (** * generic facts: res folds, node maps *)
 
@@ -265,7 +265,7 @@ Lemma update_tours_inv s veh tours forms usage dummies ids dids uns costs p ntp 
     = Ok (veh1, tours2, forms2, usage2, dummies2, ids1, dids1, uns2, costs2) ->
   FInv forms uns -> FInv forms2 uns2.
 Proof.
-  unfold update_tours. intros H HI. cbv zeta in H.
+  intros H HI. apply update_tours_peel in H. unfold update_tours_prefix in H. cbv zeta in H.
   step_bind H.
   match goal with E : (match ntp with _ => _ end) = _ |- _ => clear E end.
   repeat step_bind H.
